@@ -300,6 +300,10 @@ M("r10-old-value-after-store", ["C10"], "break",
   [("yaep.c", "		    empty_changed_p |= symb->empty_p ^ empty_p;\n		    symb->empty_p = empty_p;", "		    symb->empty_p = empty_p;\n		    empty_changed_p |= symb->empty_p ^ empty_p;")], "old-value-of-empty_p")
 M("r10-derivation-old-value-after-store", ["C10"], "break",
   [("yaep.c", "		    derivation_changed_p |= symb->derivation_p ^ derivation_p;\n		    symb->derivation_p = derivation_p;", "		    symb->derivation_p = derivation_p;\n		    derivation_changed_p |= symb->derivation_p ^ derivation_p;")], "old-value-of-derivation_p")
+M("r10-context-fixpoint-overwrite", ["C01", "C09"], "break",
+  [("yaep.c", "	      if (sit != new_sit)\n		{\n		  new_sits[i] = sit;\n		  changed_p = TRUE;\n		}", "	      changed_p = sit != new_sit;\n	      new_sits[i] = sit;")], "expand_new_start_set/changed_p-accumulates")
+M("r10-context-fixpoint-or-benign", ["C01", "C09"], "benign",
+  [("yaep.c", "	      if (sit != new_sit)\n		{\n		  new_sits[i] = sit;\n		  changed_p = TRUE;\n		}", "	      changed_p |= sit != new_sit;\n	      new_sits[i] = sit;")])
 
 # ---- R8 / R2f (C16, C19) ----------------------------------------------------------------------------
 M("r8-revert-F14", ["C19", "C16"], "break", [("hashtab.cpp", "		  entry_ptr = first_deleted_entry_ptr;\n		  *entry_ptr = EMPTY_ENTRY;", "		  entry_ptr = first_deleted_entry_ptr;\n		  *entry_ptr = DELETED_ENTRY;")], "find_hash_table_entry~")
